@@ -547,6 +547,29 @@ impl Sender {
             }
         };
         rep.count("c18.compared");
+        // the call really made (on the encapsulator as it was): whenever it succeeded WITHOUT substituting a re-use
+        // label for a 3- / 6-byte label, the preview must have announced its kind and length as well
+        if spec.func != Func::Frag {
+            if let Ok(Ok(s)) = res {
+                let (n, ctx) = status_parts(s);
+                if n >= 2 && n <= bl {
+                    let lt_emitted = wire::lt_of_word(u16::from_be_bytes([self.buf[0], self.buf[1]]));
+                    let substituted = matches!(spec.label, Label::SixBytesLabel(_) | Label::ThreeBytesLabel(_)) && lt_emitted == 3;
+                    if !substituted {
+                        rep.count("c18.compared-with-the-call-made");
+                        match &pv {
+                            Ok(v) => {
+                                let want_kind = if ctx.is_some() { Kind::First } else { Kind::Complete };
+                                if kind_of_preview_debug(&format!("{:?}", v.pkt_type())) != Some(want_kind) || v.pkt_len() as usize != n {
+                                    rep.violation("C18", sig("differs-from-the-call-made"), || format!("preview of {} says {:?} of {} bytes; the call itself (no re-use substitution: label type bits {}) produced {:?}", Self::describe(spec), v.pkt_type(), v.pkt_len(), lt_emitted, s), replay);
+                                }
+                            }
+                            Err(e) => rep.violation("C18", sig("preview-err-call-made-ok"), || format!("preview of {} = {:?}; the call itself (no re-use substitution) produced {:?}", Self::describe(spec), e, s), replay),
+                        }
+                    }
+                }
+            }
+        }
         match (&pv, real.as_ref().unwrap()) {
             (Err(e1), Err(e2)) => {
                 if e1 != e2 {
